@@ -58,13 +58,27 @@ class LArr(LiftedBase):
         raise Unsupported("len() of a lifted array (symbolic length)")
 
     def at(self, i=G):
-        return self.fn(i)
+        with S.quiet():
+            return self.fn(i)
+
+    def _probe(self, f, o):
+        """Record, once and at the generic index, the obligations of applying f element-wise."""
+        if S.Ctx.cur is None or S.QUIET[0]:
+            return
+        with S.quiet():
+            av = self.fn(G)
+            bv = o.fn(G) if isinstance(o, LArr) else o
+        if isinstance(o, LArr):
+            _zip_el(f, av, bv)
+        else:
+            _map_el(lambda v: f(v, bv), av)
 
     def copy(self):
         return LArr(self.n, self.inner, self.fn, self.name)
 
     # element-wise
     def _ew(self, o, f):
+        self._probe(f, o)
         if isinstance(o, LArr):
             return LArr(self.n, _np.broadcast_shapes(self.inner, o.inner), lambda i, a=self.fn, b=o.fn: _zip_el(f, a(i), b(i)))
         if isinstance(o, _np.ndarray):
@@ -126,9 +140,11 @@ class LArr(LiftedBase):
 
     def __getitem__(s, key):
         if isinstance(key, SymInt):
-            return s.fn(key.z)
+            with S.quiet():
+                return s.fn(key.z)
         if isinstance(key, tuple) and key and isinstance(key[0], SymInt):
-            el = s.fn(key[0].z)
+            with S.quiet():
+                el = s.fn(key[0].z)
             rest = key[1:]
             return el[rest] if rest else el
         m = _lmask(key)
@@ -206,7 +222,7 @@ class LMasked:
 
 
 class Flat(LiftedBase):
-    """Row-major flattening of a lifted array (only usable for packing / scaling)."""
+    """Row-major flattening of a lifted array (only usable for packing / element-wise scaling)."""
 
     __array_ufunc__ = None
 
@@ -217,6 +233,14 @@ class Flat(LiftedBase):
         return Flat(s.arr * o)
 
     __rmul__ = __mul__
+
+    def __add__(s, o):
+        return Flat(s.arr + o)
+
+    __radd__ = __add__
+
+    def __abs__(s):
+        return Flat(abs(s.arr))
 
 
 class Packed(LiftedBase):
@@ -231,10 +255,28 @@ class Packed(LiftedBase):
         p = self.parts[k]
         return p.arr if isinstance(p, Flat) else p
 
+    def _map(s, f):
+        return Packed([f(p) for p in s.parts])
+
     def __mul__(s, o):
-        return Packed([p * o for p in s.parts])
+        if isinstance(o, Packed):
+            raise Unsupported("product of two packed vectors")
+        return s._map(lambda p: p * o)
 
     __rmul__ = __mul__
+
+    def __add__(s, o):
+        if isinstance(o, Packed):
+            raise Unsupported("sum of two packed vectors")
+        return s._map(lambda p: p + o)
+
+    __radd__ = __add__
+
+    def __abs__(s):
+        return s._map(lambda p: abs(p) if not isinstance(p, _np.ndarray) else S.ew(abs, p))
+
+    def copy(s):
+        return Packed([p.copy() if hasattr(p, "copy") else p for p in s.parts])
 
 
 class YVec(LiftedBase):
@@ -386,7 +428,7 @@ class NPLift(S.NPShim):
         return super().sum(a, *args, **k)
 
     def abs(self, a):
-        if isinstance(a, LArr):
+        if isinstance(a, (LArr, Packed, Flat)):
             return abs(a)
         return super().abs(a)
 
@@ -451,6 +493,14 @@ class Sigma:
         name = f"SUM{len(self.sums)}"
         self.sums[name] = t
         return Sym(z3.Real(name))
+
+    def name_of(self, larr):
+        """Name of the sum symbol whose summand is syntactically that of `larr` (None if not registered)."""
+        t = z3.simplify(zz(larr.at(G)))
+        for name, t0 in self.sums.items():
+            if z3.eq(z3.simplify(t0), t):
+                return name
+        return None
 
     def declare(self, name, summand_fn):
         """Declare a named sum of known summand (e.g. SUMf = sum f(g))."""
